@@ -340,9 +340,9 @@ func genSha(o *kit.Out, r *kit.Rand, nRand int) {
 	}
 }
 
-// the two behaviours of the unchanged tree that contradict the statement
+// the behaviours that contradict(ed) the statement: nil-root (fixed in /repo 96b4d2262f, now a regression check) and total-malleable
 func genFindingWitnesses(o *kit.Out) {
-	o.Case("finding-nil-root")
+	o.Case("regression-nil-root")
 	o.Op("items 0")
 	leaf := []byte("anything")
 	o.Op("verify 0 0 %s - %s 0", kit.Hex(oLeaf(leaf)), kit.Hex(leaf))
